@@ -46,8 +46,16 @@ claimed = {
             'Coq proof over a model regenerated from the C++ AST + differential correspondence'),
     'C03': ('proof', 'PARTIAL proof, decided end to end by exploration. Proved in Coq (all traces, all lengths, any number of threads): the lock '
             'layer (C07) lifted to every node of a trace accepted node by node (validated sections are snapshots, stores only under the '
-            'node\'s write guard or on a node its writer already marked obsolete), and soundness of the linearizability validator (an '
-            'accepted witness order is a sequential map execution consistent with real time). NOT a Coq theorem: that every interleaving of '
+            'node\'s write guard or on a node its writer already marked obsolete); soundness of the linearizability validator (an '
+            'accepted witness order is a sequential map execution consistent with real time); the READER THEOREM (Olc/ReadModel.v, '
+            'C03_reader_linearizable / C03_hops_on_path): over any history of heaps obeying the lock discipline and the writers\' rely '
+            'conditions (unlinked nodes are obsolete; path ++ prefix of an inner node is invariant), every node of a lock-coupled '
+            'descent is on the key\'s search path with the content the reader saw throughout its section, and the result of try_get is '
+            'the lookup result at one moment inside the call (the same lemma makes a writer\'s view of parent / node / child accurate '
+            'when it commits); and the meaning of the read-protocol acceptor (C03_protocol_*: no unvalidated read, child locked before '
+            'the parent is released, versions used only for their own node, no guard left), which is extracted and run on the events of '
+            'every get / insert / remove of every sampled execution. NOT a Coq theorem: that the writers\' commits satisfy the rely '
+            'conditions and transform the tree as the sequential algorithm does, hence that every interleaving of '
             'try_get/try_insert/try_remove yields a linearizable history. That is decided on the implementation: olc_db run by 2-3 QSBR '
             'threads under the deterministic scheduler, all schedules with at most one (quick) / two (thorough) preemptions per program plus '
             'random schedules, on initial trees forcing every structural change; each execution\'s history goes through the verified '
@@ -69,10 +77,14 @@ claimed = {
     'C09': ('proof', 'PARTIAL proof, decided end to end by exploration. Proved in Coq: a scan that is a sequence of "least key >= bound at some '
             'moment" queries with non-decreasing moments (the re-seek design of the OLC iterator) over ANY history of maps delivers strictly '
             'increasing keys within the bound, each with a value held at the query moment, never a key absent throughout, and every key '
-            'present throughout (all five statements of the property, for all histories and scan lengths). NOT a Coq theorem: that the '
-            'iterator code realises such a sequence under every interleaving. That is decided on the implementation: scans (scan, '
-            'scan_from, scan_range, both directions) racing writers that restructure nodes on the scanner\'s stack, under the deterministic '
-            'scheduler; order, interval, value provenance and exactly-once delivery of untouched keys are checked per execution.', '5 C09',
+            'present throughout (all five statements of the property, for all histories and scan lengths); and C09_chain_is_scan / '
+            'C09_chain_exhausted: in any sequence accepted by the verified linearizability validator the successor queries of one scan '
+            'form exactly such an abstract scan over the maps the sequence goes through. NOT a Coq theorem: that the iterator code '
+            'realises such a sequence under every interleaving. That is decided on the implementation: every scan (scan, scan_from, '
+            'scan_range, both directions, halting visitors) of every explored execution is turned into its chain of successor queries '
+            '(stamped with the scheduler clock) and must be accepted by the validator together with the racing inserts / removes; '
+            'order, interval, value provenance and exactly-once delivery of untouched keys are checked again directly; iterator steps '
+            'must use saved versions only for their own node (extracted acceptor).', '5 C09',
             'Trusted: as C03; reverse scans by symmetry (not restated in Coq); the per-execution scan checker is Python (tools/p_olc.py).',
             'Coq proof of the abstract re-seek scan + schedule exploration of the real iterator'),
     'C14': ('proof', 'PARTIAL proof, decided end to end by exploration. Proved in Coq: in every accepted trace at most one write guard per node, and a '
@@ -109,8 +121,10 @@ claimed = {
             'Coq invariant proof over the coarse model + differential correspondence + deterministic schedule exploration of the implementation'),
     'C06': ('proof', 'Coq theorems: pending + freed is a permutation of retired in every history (exactly once, whether the requester runs on, '
             'pauses or exits), the thread count in the state word equals the number of registered threads with P <= T, and after all but one '
-            'thread have left two quiescent states of the remaining one leave nothing pending. The three-round bound is checked on the '
-            'implementation (drain phases, exploration) but not stated as a theorem.', '5 C06', QSBR_NOTE,
+            'thread have left two quiescent states of the remaining one leave nothing pending, and C06_three_rounds: whatever is pending '
+            'in a reachable state is executed by the end of three consecutive rounds in which every registered thread quiesces or '
+            'leaves (with machine-checked witnesses that two rounds are not enough and that registrations inside a round break it). '
+            'The same bounds are checked on the implementation (drain phases, three-round oracle, exploration).', '5 C06', QSBR_NOTE,
             'Coq invariant proof over the coarse model + differential correspondence + deterministic schedule exploration'),
     'C01': ('proof', 'Coq theorems C01_refines_map / C01_invariant: every history of get/insert/remove/empty/clear over keys of one '
             'fixed length 1..8 returns exactly what an association-list map returns (including leaf identity), never goes out of '
